@@ -120,6 +120,10 @@ Ltac enum H :=
          | x : list _ |- _ => match goal with Hx : context [isnil x] |- _ => match type of Hx with _ = true => spx x end end
          end.
 
+Arguments open_logs : simpl never.
+Arguments close_logs : simpl never.
+Arguments closed_answer : simpl never.
+
 Ltac split_ifs :=
   repeat (match goal with
           | |- context [if ?c then _ else _] => destruct c eqn:?
@@ -138,22 +142,11 @@ Ltac unf :=
 Ltac fin_live H := enum H; unf; leaf.
 
 Lemma fin_remove_reader fx s r : inv_b fx s = true -> inv_b fx (fst (step_gen fx s (RemoveReader r))) = true.
-Proof. intros H. start s. destruct cl; [exact H|]. Time fin_live H. Qed.
+Proof. intros H. start s. destruct cl; [exact H|]. Time fin_live H. Time Qed.
 
 Lemma fin_describe fx s q : inv_b fx s = true -> inv_b fx (fst (step_gen fx s (Describe q))) = true.
-Proof. intros H. start s. destruct cl; [exact H|]. Time fin_live H. Qed.
+Proof. intros H. start s. destruct cl; [exact H|]. Time fin_live H. Time Qed.
 
 Lemma fin_add_reader fx s q r : inv_b fx s = true -> inv_b fx (fst (step_gen fx s (AddReader q r))) = true.
-Proof. intros H. start s. destruct cl; [exact H|]. Time fin_live H. Qed.
+Proof. intros H. start s. destruct cl; [exact H|]. Time fin_live H. Time Qed.
 
-Lemma fin_remove_publisher fx s p : inv_b fx s = true -> inv_b fx (fst (step_gen fx s (RemovePublisher p))) = true.
-Proof. intros H. start s. destruct cl; [exact H|]. Time fin_live H. Qed.
-
-Lemma fin_static_not_ready fx s : inv_b fx s = true -> inv_b fx (fst (step_gen fx s StaticNotReady)) = true.
-Proof. intros H. start s. destruct cl; [exact H|]. Time fin_live H. Qed.
-
-Lemma fin_timer fx s t : inv_b fx s = true -> inv_b fx (fst (step_gen fx s (TimerFire t))) = true.
-Proof. intros H. start s. destruct cl; [exact H|]. Time destruct t; fin_live H. Qed.
-
-Lemma fin_close fx s : inv_b fx s = true -> inv_b fx (fst (step_gen fx s Close)) = true.
-Proof. intros H. start s. destruct cl; [exact H|]. Time fin_live H. Qed.
